@@ -1309,6 +1309,12 @@ class NodeBase(ABC):
                 "to move a node within or between trees."
             )
 
+        if getattr(this, "__document__", None) is not None:
+            raise InvalidOperation(
+                "The root node of a document cannot be added to another tree. Use a "
+                "`clone` argument or set another root node for that document before."
+            )
+
         return this, queue
 
     def replace_with(self, node: NodeSource, clone: bool = False) -> NodeBase:
